@@ -352,6 +352,18 @@ def register(cat):
     for kind in ("T", "S", "K"):
         bad(kind + ".mttkrp_ktensor_of_higher_order", kind, gen_mttkrp_ktensor_order, lambda eng, ops, st: ops[0].mttkrp(ttb.ktensor(list(ops[1:])), st["n"]), lambda ops, st: len(ops) - 1 != ops[0].ndims)
 
+    for kind in ("T", "S", "K", "TT", "SUM"):
+        def gen_mttkrp_mode(c, r):
+            x = c.obj(r)
+            sh = shp(x)
+            if len(sh) < 2:
+                return None
+            rk = c.g.randint(1, 2)
+            n = c.g.choice([-1, -2, -len(sh), len(sh), len(sh) + 1])
+            return {"operands": [r] + [c.fresh(np.asfortranarray(rand_array(c.g, (s_, rk)))) for s_ in sh], "n": n}
+
+        bad(kind + ".mttkrp_mode_out_of_range", kind, gen_mttkrp_mode, lambda eng, ops, st: ops[0].mttkrp(list(ops[1:]), st["n"]), lambda ops, st: not (0 <= st["n"] < ops[0].ndims))
+
     def gen_contract(c, r):
         sh = shp(c.obj(r))
         pairs = [(i, j) for i in range(len(sh)) for j in range(len(sh)) if i != j and sh[i] != sh[j]]
